@@ -324,7 +324,73 @@ func runMemScenario1(sc *memScenario) (memResult, string) {
 	if over == "" {
 		over = bigValuePhase(sc.kind)
 	}
+	if over == "" {
+		over = bigValueThinningPhase(sc.kind, sc.keys)
+	}
 	return res, over
+}
+
+// bigValueThinningPhase: the scenario's own key set (so its shapes: long shared paths, wide nodes)
+// is stored with 64 KiB values and then thinned to every fourth key in sorted order, which removes
+// the smallest and largest leaves under most inner nodes while the nodes themselves survive. The
+// tree may then keep alive what a tree built from the survivors alone keeps alive, plus a margin:
+// content, not history.
+func bigValueThinningPhase(kind Kind, all [][]byte) string {
+	keys := all
+	if len(keys) > 384 {
+		keys = keys[:384]
+	}
+	if len(keys) < 8 {
+		return ""
+	}
+	var survivors [][]byte
+	for i, k := range keys {
+		if i%4 == 1 {
+			survivors = append(survivors, k)
+		}
+	}
+	measure := func(build func(sub Subject)) (int64, Subject) {
+		base := liveHeap()
+		sub := NewSubject(kind, bigVals)
+		build(sub)
+		return liveHeap() - base, sub
+	}
+	refDelta, ref := measure(func(sub Subject) {
+		for i, k := range survivors {
+			safeDo(func() { sub.Insert(k, i) })
+		}
+	})
+	if ref.Size() != len(survivors) {
+		return ""
+	}
+	ref = nil
+	msg := ""
+	for attempt := 0; attempt < 2; attempt++ {
+		histDelta, sub := measure(func(sub Subject) {
+			for i, k := range keys {
+				safeDo(func() { sub.Insert(k, i) })
+			}
+			for i, k := range keys { // walk the tree once more with every key (overwrites)
+				safeDo(func() { sub.Insert(k, i) })
+			}
+			for i, k := range keys {
+				if i%4 != 1 {
+					safeDo(func() { sub.Delete(k) })
+				}
+			}
+		})
+		if sub.Size() != len(survivors) {
+			return ""
+		}
+		if histDelta > refDelta+refDelta/4+(1<<20) {
+			msg = fmt.Sprintf("%d keys with 64 KiB values were stored and thinned to %d: the tree keeps %d KiB alive, a tree built from the %d survivors alone keeps %d KiB", len(keys), len(survivors), histDelta>>10, len(survivors), refDelta>>10)
+			runtime.KeepAlive(sub)
+			continue
+		}
+		runtime.KeepAlive(sub)
+		return ""
+	}
+	return msg
 }
 
 // bigVals: values of 64 KiB, so that a handful of entries that outlive their deletion is
